@@ -31,6 +31,16 @@ fn run(case: &mut Case) -> Result<Outcome, String> {
     let cc: Vec<(f64, f64)> = (0..m).map(|_| (dyadic(&mut case.src, 3, 4), if complex { dyadic(&mut case.src, 3, 4) } else { 0.0 })).collect();
     let pt: Vec<(f64, f64)> = (0..n).map(|_| (dyadic(&mut case.src, 4, 4), if complex { dyadic(&mut case.src, 4, 4) } else { 0.0 })).collect();
     let kinds: Vec<u32> = (0..m).map(|_| case.src.below(3)).collect();
+    // affine maps: every component may live at its own scale (exact power of two): the quotients stay exact.
+    // 0 mostly; +-60; occasionally -600..-500 (for complex entries the modulus of such a value underflows)
+    let row_scale: Vec<i32> = (0..m)
+        .map(|_| if !affine { 0 } else { match case.src.below(6) { 0 | 1 | 2 => 0, 3 | 4 => case.src.small_int(60) as i32, _ => -(500 + case.src.below(100) as i32) } })
+        .collect();
+    let mm: Vec<Vec<(f64, f64)>> = mm.iter().enumerate().map(|(i, r)| r.iter().map(|v| (v.0 * 2f64.powi(row_scale[i]), v.1 * 2f64.powi(row_scale[i]))).collect()).collect();
+    let cc: Vec<(f64, f64)> = cc.iter().enumerate().map(|(i, v)| (v.0 * 2f64.powi(row_scale[i]), v.1 * 2f64.powi(row_scale[i]))).collect();
+    if row_scale.iter().any(|k| *k != 0) {
+        case.class("affine map with per-component scales 2^k");
+    }
     case.describe(|| format!("{} m={} n={} affine={} delta={:e} M={:?} c={:?} point={:?} kinds={:?}", if complex { "cmplx" } else { "f64" }, m, n, affine, delta, mm, cc, pt, kinds));
 
     if !complex {
@@ -164,7 +174,7 @@ impl Prop for C18 {
     }
     fn rule(&self) -> String {
         "stream prefix (real/complex, m in 1..=6, n in 1..=6): all 72 combinations enumerated in every run with many random tails, plus random cases. 2/3 affine maps x -> Mx + c with dyadic entries (multiples of 1/8, |.| <= 4), \
-         dyadic points (multiples of 1/16 in [-4,4]^n, complex: both parts) and delta = 2^-k, k = 4..=26, so every operation is exact: the Jacobian must equal M exactly; 1/3 smooth nonlinear maps (sin, exp, atan / z^2, exp of an affine form) with delta = 2^-k or 1e-8: \
+         dyadic points (multiples of 1/16 in [-4,4]^n, complex: both parts), components scaled by individual powers of two (0, +-60 or -600..-500) and delta = 2^-k, k = 4..=26, so every operation is exact: the Jacobian must equal M exactly; 1/3 smooth nonlinear maps (sin, exp, atan / z^2, exp of an affine form) with delta = 2^-k or 1e-8: \
          |J_ij - df_i/dx_j| <= 1/2 delta max|f''| M_ij^2 + 4 eps (|f| + 1 + (n+2) |f'| (sum_j |M_ij||x_j| + |c_i|)) / delta (truncation + rounding of the perturbed argument and of the difference). Always: result has m rows and n columns; the map is evaluated exactly n+1 times, first at the base point, then at base + delta e_j for j = 0..n-1 with all other coordinates equal to the base \
          (bitwise for dyadic data, 2 ulp for 1e-8), i.e. each coordinate is restored before the next is perturbed. Non-trivial: m != n. distinct = distinct decoded choice sequence."
             .into()
